@@ -102,7 +102,7 @@ impl Property for C11 {
         ops.push(SOp::Restart { policy: None });
         for sop in &ops {
             let step = exec.step(sop)?;
-            exec.check_outcome(&step)?;
+            exec.usable_or_skip(&step)?;
         }
         exec.driver.close()?;
         let image = Image::from_dir(&dir).map_err(|err| CaseError::Engine(format!("read dir: {err}")))?;
